@@ -65,6 +65,9 @@ class CompressedFileHandler(FileHandler):
                 self.entry.encodedmimetype = None
                 self.entry.realencoding = self.entry.encoding
                 self.entry.encoding = None
+                # The client receives the decompressed data: the size of the
+                # compressed file on disk is not the size of the response.
+                self.entry.size = None
                 self.entry.type = self.entry.guesstype()
         return self.entry
 
